@@ -101,5 +101,18 @@ def contain(a, form):
     return a.copy()
 
 
+def clone(obj, how):
+    """What a caller does with a long-lived object besides calling it: copy it, deep-copy it, send it through
+    pickle (a process boundary, a cache on disk).  The clone must be the same game."""
+    import copy
+    import pickle
+
+    if how == 0:
+        return copy.deepcopy(obj)
+    if how == 1:
+        return pickle.loads(pickle.dumps(obj))
+    return copy.copy(obj)
+
+
 def quiet():
     warnings.filterwarnings("ignore")
